@@ -321,8 +321,15 @@ func (s *raftLog) StoreLogs(logs []*raft.Log) error {
 
 // DeleteRange deletes logs within a given range inclusively.
 func (s *raftLog) DeleteRange(min, max uint64) error {
+	if min > max {
+		return nil // empty range
+	}
 	batch := rocksdb.NewWriteBatch()
-	batch.DeleteRangeCF(s.cfHandles[logTable], util.Uint64AsBytes(min), util.Uint64AsBytes(max+1))
+	// The range is inclusive. The exclusive end handed to RocksDB is the
+	// immediate successor of max's key; max+1 would wrap around for the
+	// largest index and yield an invalid (end < start) range.
+	end := append(util.Uint64AsBytes(max), 0x0)
+	batch.DeleteRangeCF(s.cfHandles[logTable], util.Uint64AsBytes(min), end)
 	return s.db.Write(s.wo, batch)
 }
 
